@@ -403,7 +403,13 @@ func ruleHeaderAndCoverage(r *Run, p string, k *serKind, doHeader, doCover bool)
 					}
 				}
 			}
-			if returnsErr && strings.Contains(cs, "!=") {
+			// the rejection must depend on the comparison alone: `if read != recv.f { return err }`;
+			// a conjunction (`if trained && read != recv.f`) accepts mismatching streams in some states
+			single := false
+			if be, ok := x.Cond.(*ast.BinaryExpr); ok && be.Op == token.NEQ {
+				single = true
+			}
+			if returnsErr && single {
 				for i := 0; i < st.NumFields(); i++ {
 					if containsSel(cs, recvR, st.Field(i).Name()) {
 						compared[st.Field(i).Name()] = true
@@ -555,7 +561,7 @@ func ruleReadErrors(r *Run, rule string, k *serKind) {
 				return true
 			}
 			cs := exprStr(ifs.Cond)
-			if !strings.Contains(cs, "err != nil") {
+			if cs != "err != nil" { // exactly this test: a narrowed one (`err != nil && !benign(err)`) lets some read errors through
 				return true
 			}
 			returns := false
@@ -616,7 +622,7 @@ func ruleReadErrors(r *Run, rule string, k *serKind) {
 						break
 					}
 					ifs, ok := list[j].(*ast.IfStmt)
-					if !ok || ifs.Init != nil || !strings.Contains(exprStr(ifs.Cond), "err != nil") {
+					if !ok || ifs.Init != nil || exprStr(ifs.Cond) != "err != nil" {
 						break
 					}
 					returns := false
@@ -863,6 +869,11 @@ func ruleCommitAfterDecode(r *Run, rule string, k *serKind) {
 		}
 		return true
 	})
+	if k.Name == "IVFPQIndex" || k.Name == "hybridSearchIndex" {
+		// the property deliberately leaves these two kinds out of the no-half-load clause: reported, not claimed
+		r.Note(rule, k.Name+":commit-last", w.Pos(side.Decl.Pos())+" (*"+k.Name+").ReadFrom", fmt.Sprintf("%d receiver assignments, early ones: %v (kind excluded by the property)", n, early))
+		return
+	}
 	r.Check(len(early) == 0 && n > 0, rule, k.Name+":commit-last", w.Pos(side.Decl.Pos())+" (*"+k.Name+").ReadFrom",
 		fmt.Sprintf("%d receiver assignments, all after the last fallible step", n), "receiver state is modified before decoding is complete: "+strings.Join(early, ", "))
 }
